@@ -35,6 +35,8 @@ type nitroEnv struct {
 	handles  []map[int]*skiplist.Node
 	closing  bool // Nitro.Close has started
 	inVisit  int
+	// the guard allocator also served instances whose (failed) loads are outside C07
+	allocShared bool
 	closeIvs [][2]int64
 	lastRec  *snapRec
 }
